@@ -1850,7 +1850,6 @@ func ruleOneSubPerRID(c *Ctx) {
 	}
 }
 
-
 // innermostLoopHeader: the header of the innermost natural loop containing b.
 func innermostLoopHeader(b *ssa.BasicBlock) *ssa.BasicBlock {
 	var best *ssa.BasicBlock
